@@ -175,6 +175,9 @@ def refusal_classes(body):
         if isinstance(n, ast.IfExp):
             kb, ko = kind(n.body), kind(n.orelse)
             ok = (kb in ("num", "unknown") and ko in ("num", "unknown")) or (kb == ko and kb in ("bool", "str"))
+            # two dictionary displays with the same keys and the same (kinds of) values are the same kind of thing
+            if isinstance(n.body, ast.Dict) and isinstance(n.orelse, ast.Dict) and astx.dump_fields(n.body) == astx.dump_fields(n.orelse):
+                ok = True
             if not ok:
                 r.add("r4-conditional")
         # field access on something that may be dict-typed without being a dict literal (result of a conditional / subscript)
